@@ -31,7 +31,7 @@ def short(x):
 
 class C16(Prop):
     id = "C16"
-    props_file = ["Props/C16.v", "Props/C16_Bridge.v"]
+    props_file = ["Props/C16.v", "Props/C16_Bridge.v", "Props/C16_Live.v"]
     coq_imports = ["From ONL Require Import Base.Cmp Tcp.Sink Tcp.Sender Tcp.Cubic Tcp.Loop."]
     n_quick = 1000
     n_thorough = 20000
@@ -65,13 +65,12 @@ class C16(Prop):
                    "configuration: no drops, delay d < initial rtt_estimate and rtt_estimate != 2d (then every RTO in force exceeds 2d; at "
                    "rtt_estimate = 2d the estimator reaches RTO = RTT exactly and the timer wins the same-instant race)"]
     partial = [
-        "reliable_delivery (finitely many drops => the run ends with the sink holding [0,size) and last_ack = size) is a liveness claim. Proved: the "
-        "safety half (never raises; last_ack <= sink prefix <= next_seq; last_ack monotone; an unfinished transfer always has an armed timer event or "
-        "a runnable sender on the agenda; a quiescent loop is complete), C16_work_bounded_by_transmissions (every agenda step decreases a potential: "
-        "steps <= 3 + size + 10 * data transmissions, so only retransmitting can keep the loop busy) and C16_lossfree_terminates (the loop without "
-        "drops ends quiescent and complete within 3 + 11*size steps). NOT proved: that with a non-empty finite drop set the number of retransmissions "
-        "is bounded (needs real-time reasoning about RTO doubling against the delivery of the first unacknowledged segment); that part is tested by "
-        "runs to quiescence on random drop patterns",
+        "reliable_delivery is proved over exact arithmetic (C16_reliable_delivery, Props/C16_Live.v: constant one-way delay d >= 0, two finite "
+        "drop lists, Reno or CUBIC with any cnt oracle; the run ends with an empty agenda, last_ack = size and the sink holding [0,size) within "
+        "3 + Gnew*size + Cexp*Bexp agenda steps, unless env.run(until=t_max) stops it first). What the theorem does not carry is binary64 "
+        "rounding of instants and of the RTO estimator: runs whose floats are not short dyadics are monitored, not compared (one such run, a "
+        "zero-delay path on which now + rto rounded to now, was a genuine stall of the real code, repaired by repo fix 4170594 and kept as "
+        "corpus/C16/loop-zero-delay-rto-vanishes.json); per-packet varying delays are outside the model (Wire with a constant delay_dist)",
     ]
 
     # ---- second tie: TCPSink.put translated from the tree under test before the Coq build (fail closed) ----
